@@ -341,10 +341,12 @@ func inlineFunc(p *Prog, f *ssa.Function, cc *ssa.CallCommon, resIdx int, env *E
 		}
 		return nil
 	}
-	// phis make the block-walk unsound (value depends on the path): only inline phi-free functions
+	// phis make the block-walk unsound (value depends on the path): only inline phi-free functions;
+	// functions with defers (lock/unlock wrappers) are not pure helpers: kept as call atoms
 	for _, b := range f.Blocks {
 		for _, in := range b.Instrs {
-			if _, ok := in.(*ssa.Phi); ok {
+			switch in.(type) {
+			case *ssa.Phi, *ssa.Defer, *ssa.RunDefers, *ssa.Go:
 				return nil
 			}
 		}
